@@ -25,6 +25,9 @@ Over the instantiations (N = 1, 2, 3, double) of
  R4 orientation (AST): a divided difference (X - Y) / (U - V) over eigenvalues
     pairs X with U and Y with V (f[i] with vp(i), a mean value with the mean of
     the same pair): otherwise its sign is wrong.
+ R6 index agreement (AST): a scalar taken from an array indexed by eigenvalue
+    (A[k], vp(k), a local mean of such entries) multiplies eigen-tensors of
+    the same indices only (nK, nK ^ nK, nIJ ^ nIJ).
  R3 sibling agreement (AST): in the decomposition in positive and negative
     parts, the increment of dpp in the 'vp(k) > 0' arm and the increment of dnp
     in the 'vp(k) < 0' arm are the same expression, and likewise pp / np.
@@ -343,6 +346,72 @@ def limit_rule(rep, f, lay):
     rep.count("coincident-eigenvalue limit coefficients", n_)
 
 
+def index_rule(rep, f):
+    """R6: in a product of a scalar taken from an array indexed by eigenvalue (A[k], vp(k), or a local mean of such entries) and a sum
+    of eigen-tensors (nK, nK ^ nK, nIJ ^ nIJ), the indices of the scalar are the indices of the tensors."""
+    inits = {}
+    for s, n in f.stmts.items():
+        if n["k"] == "DeclStmt":
+            for d in n["decls"]:
+                if "init" in d and "declId" in d:
+                    inits[d["declId"]] = d["init"]
+
+    def tens_idx(sid):
+        """indices of a sum of eigen-tensors / diagonal dyads; None when the expression is something else."""
+        sid = f.strip(sid)
+        n = f.stmts.get(sid)
+        if n is None:
+            return None
+        if n["k"] == "DeclRefExpr":
+            m = re.match(r"^n(\d)(\d)?$", n.get("name") or "")
+            return set(x for x in m.groups() if x is not None) if m else None
+        if n["k"] == "CXXOperatorCallExpr" and n.get("op") == "^" and len(n.get("args", [])) == 2:
+            a, b = f.text(f.strip(n["args"][0])), f.text(f.strip(n["args"][1]))
+            if a != b:
+                return None
+            return tens_idx(n["args"][0])
+        if n["k"] == "CXXOperatorCallExpr" and n.get("op") == "+" and len(n.get("args", [])) == 2:
+            l, r = tens_idx(n["args"][0]), tens_idx(n["args"][1])
+            return None if l is None or r is None else l | r
+        return None
+
+    def scal_idx(sid):
+        sid = f.strip(sid)
+        n = f.stmts.get(sid)
+        if n is None:
+            return None
+        t = f.text(sid)
+        m = re.match(r"^[\w.>-]+[\[\(](\d)[\]\)]$", t)
+        if m:
+            return {m.group(1)}
+        if n["k"] == "DeclRefExpr" and n.get("declId") in inits and n.get("local"):
+            it = f.text(inits[n["declId"]])
+            found = re.findall(r"[\w.>-]+[\[\(](\d)[\]\)]", it)
+            if found and re.match(r"^[()\w.>\[\] +*/-]+$", it) and ("/" in it or "half" in it):
+                return set(found)
+        return None
+    n_ = 0
+    for s, n in sorted(f.stmts.items()):
+        if not (n["k"] == "CXXOperatorCallExpr" and n.get("op") == "*" and len(n.get("args", [])) == 2):
+            continue
+        for ti, si in ((0, 1), (1, 0)):
+            T, S = tens_idx(n["args"][ti]), scal_idx(n["args"][si])
+            if T is None or S is None:
+                continue
+            n_ += 1
+            # a single-index scalar may multiply the mixed dyad of a pair that contains its index (the term is then divided by the
+            # difference of the two eigenvalues: coupling rule); otherwise the index sets must be equal
+            if T == S or (len(S) == 1 and len(T) == 2 and S < T):
+                rep.ok("%s: %s * %s: same eigenvalue indices" % (name_of(f), f.text(n["args"][si]), f.text(n["args"][ti])), sample=False)
+            else:
+                rep.fail("INDEX@%s#%s" % (re.sub(r"<.*", "", name_of(f)), rel(f.short_loc(s)).rsplit(":", 1)[-1]),
+                         "%s: in %s the scalar %s (eigenvalue indices %s) multiplies %s (indices %s): a quantity of one eigenvalue is "
+                         "attached to the eigen-tensor of another" % (rel(f.short_loc(s)), name_of(f), f.text(n["args"][si]), sorted(S),
+                                                                      f.text(n["args"][ti]), sorted(T)))
+            break
+    rep.count("scalar x eigen-tensor products", n_)
+
+
 def tensors_of(f, sid, scaled=False):
     """set of index pairs {I,J} for an expression made of (nIJ ^ nIJ) terms (possibly a sum); None if something else."""
     sid = f.strip(sid)
@@ -467,6 +536,7 @@ def clauses(rep, sub="C05"):
         guard_rule(rep, f)
         coupling_rule(rep, f)
         orientation_rule(rep, f)
+        index_rule(rep, f)
         sibling_rule(rep, f)
     rep.floor("instantiations analysed", 12)
     rep.floor("divisions by an eigenvalue difference", 30)
